@@ -62,6 +62,11 @@ def gen_cases(ctx):
     base = S.expr_cases(ctx, 4000 if q else 400000, 2500 if q else 250000, 500 if q else 50000, 500 if q else 50000, 300 if q else 30000)
     for _, e in base:
         cases.append((rng.choice(PREFIXES) + e, G.rand_doc(rng, 3)))
+    # long expressions: offsets, lines and columns beyond 255 and beyond 65535 (a narrowed counter would wrap)
+    for k, (_, e) in enumerate(base[:60 if q else 2000]):
+        pad = rng.choice(["'" + "x" * 300 + "' && ", "'" + "é" * 200 + "'\n&& ", "\n" * 300 + "'a' && ", " " * 70000 if k % 20 == 0 else " " * 700,
+                          "'" + "y\n" * 400 + "' && ", "`\"" + "z" * 66000 + "\"` && " if k % 20 == 1 else "`\"" + "z" * 600 + "\"` && "])
+        cases.append((pad + e, G.rand_doc(rng, 2)))
     for _ in range(300 if q else 30000):
         f = rng.choice(["sort_by", "max_by", "min_by"])
         cases.append((rng.choice(PREFIXES) + f"{f}(@, &{rng.choice(['a', '@', 'to_array(@)', 'b.c', 'to_string(@)'])})",
